@@ -421,6 +421,19 @@ def run_property(pid, tier, base_seed):
         fz.spec["noregex"] = True
         done.append(fz.run())
         shutil.rmtree(os.path.join(cwd, "fuzzcache"), ignore_errors=True)
+    # ---- an inconclusive process (timeout under load, environment hiccup) is re-run once, alone
+    retried = 0
+    for i, pr in enumerate(done):
+        verdict, detail = classify(pr)
+        if verdict == "infra" and not any(a.startswith("-test.fuzz=") for a in pr.extra_args):
+            log("retrying inconclusive %s shard %d (%s)" % (pr.name, pr.shard, detail))
+            for f in glob.glob(os.path.join(pr.cwd, "vstats-*.json")):
+                os.remove(f)
+            shutil.copy(os.path.join(pr.cwd, "output.log"), os.path.join(pr.cwd, "output.first.log"))
+            pr.timed_out = False
+            pr.timeout = int(pr.timeout * 1.5)
+            pr.run()
+            retried += 1
     # ---- verdict
     violations, infra, known_hits = [], [], []
     for pr in done:
@@ -438,6 +451,8 @@ def run_property(pid, tier, base_seed):
     tests = merge_stats(done)
     wall = time.time() - t0
     notes = []
+    if retried:
+        notes.append("%d inconclusive process(es) were re-run once" % retried)
     for pr, sig in known_hits:
         notes.append("known finding reproduced: %s" % sig)
     for pr, d in infra:
